@@ -7,6 +7,10 @@ pub mod c05;
 pub mod c06;
 pub mod c07;
 pub mod c08;
+pub mod c09;
 pub mod c10;
+pub mod c11;
+pub mod c14;
+pub mod c15;
 pub mod c17;
 pub mod c18;
